@@ -40,9 +40,17 @@ def _backend():
 
 
 def _domains(level):
+    if level == 3:
+        return ["k"], [1, True]  # equal in Python, distinct as JSON tag values
     keys = ["k", "l"] if level >= 1 else ["k"]
     vals = [0, 1, "x", None] if level >= 2 else [0, 1]
     return keys, vals
+
+
+def _tok(v):
+    """A tag value as the JSON text that identifies it (1, true and 1.0 are different tag values)."""
+    import json
+    return json.dumps(v)
 
 
 def run_history(steps, tolerate=False):
@@ -71,10 +79,10 @@ def _run_history(steps, tolerate=False):
         cur = model[e]
         readded = []
         if op in ("add", "add_two"):
-            pairs = [(k, v)] if op == "add" or (k2, v2) == (k, v) else [(k, v), (k2, v2)]
+            pairs = [(k, v)] if op == "add" or (k2, _tok(v2)) == (k, _tok(v)) else [(k, v), (k2, v2)]
             trace.append("tag add %s %s" % (e, " ".join("%s=%r" % p for p in pairs)))
             b.record_tags(TagEntity.Job, ent, pairs, new=True)
-            for p in pairs:
+            for p in [(pk, _tok(pv)) for pk, pv in pairs]:
                 if p in cur:
                     readded.append(p)
                 else:
@@ -82,11 +90,11 @@ def _run_history(steps, tolerate=False):
         elif op == "update":
             trace.append("tag update %s %s=%r" % (e, k, v))
             b.record_tags(TagEntity.Job, ent, [(k, v)], update=True)
-            model[e] = cur = [p for p in cur if p[0] != k] + [(k, v)]
+            model[e] = cur = [p for p in cur if p[0] != k] + [(k, _tok(v))]
         elif op == "rm_pair":
             trace.append("tag rm %s %s=%r" % (e, k, v))
             b.delete_tags(ent, [(k, v)])
-            model[e] = cur = [p for p in cur if p != (k, v)]
+            model[e] = cur = [p for p in cur if p != (k, _tok(v))]
         elif op == "rm_key":
             trace.append("tag rm %s -- %s" % (e, k))
             b.delete_tags(ent, [], [k])
@@ -94,12 +102,12 @@ def _run_history(steps, tolerate=False):
         else:  # rm_mixed: one pair and one key in the same command
             trace.append("tag rm %s %s=%r %s" % (e, k, v, k2))
             b.delete_tags(ent, [(k, v)], [k2])
-            model[e] = cur = [p for p in cur if not (p == (k, v) or p[0] == k2)]
+            model[e] = cur = [p for p in cur if not (p == (k, _tok(v)) or p[0] == k2)]
         # compare every entity with the model
         got = b.get_tags([uid + x for x in ENTS])
         for x in ENTS:
             mm = got.get(uid + x)
-            items = sorted(((kk, vv) for kk, vv in (mm.items() if mm else [])), key=repr)
+            items = sorted(((kk, _tok(vv)) for kk, vv in (mm.items() if mm else [])), key=repr)
             want = sorted(model[x], key=repr)
             if items != want:
                 extra = list(items)
@@ -189,15 +197,16 @@ def c24_history(k: int) -> bool:
     return guard(body, k=k)
 
 
-_N0, _N1 = len(_commands(0)), len(_commands(1))
+_N0, _N1, _N3 = len(_commands(0)), len(_commands(1)), len(_commands(3))
 CONDITIONS = [
-    Condition(c24_history, slices=[(3, 0, f) for f in range(_N0)] + [(2, 1, f) for f in range(0, _N1, 3)],
+    Condition(c24_history, slices=[(3, 0, f) for f in range(_N0)] + [(2, 1, f) for f in range(0, _N1, 3)] + [(2, 3, f) for f in range(_N3)],
               thorough_slices=[(2, 1, f) for f in range(_N1)] + [(2, 2, f) for f in range(0, len(_commands(2)), 2)]
-              + [(4, 0, f) for f in range(_N0)],
+              + [(4, 0, f) for f in range(_N0)] + [(3, 3, f) for f in range(_N3)],
               timeout=170, thorough_timeout=2400,
               bounds="slice = (number of commands, domain level, index of the fixed first command); every later command is "
                      "solver-chosen among all distinct commands of the level (%d at level 0, %d at level 1): %r on entities A/B; "
-                     "level 0: key k, values 0/1; level 1: keys k/l; level 2: values also 'x' and null" % (_N0, _N1, OPS)),
+                     "level 0: key k, values 0/1; level 1: keys k/l; level 2: values also 'x' and null; level 3: key k, values 1 and true (equal "
+                     "in Python, distinct tag values)" % (_N0, _N1, OPS)),
 ]
 
 
